@@ -55,7 +55,11 @@ def make_case(rng, i, ctx):
     priors = None
     if pri_form == 'dict':
         k = int(rng.integers(0, n))
-        priors = {k: ['%.2f(%d)', '%.1f0(%d)'][int(rng.integers(0, 2))] % (ptrue[k] * 1.05, int(rng.integers(20, 60)))}
+        form = int(rng.integers(0, 3))
+        if form == 2:
+            priors = {k: '%.1f(%.1f)' % (ptrue[k] * 1.05, float(rng.uniform(0.2, 0.6)))}      # error with its own decimal point
+        else:
+            priors = {k: ['%.2f(%d)', '%.1f0(%d)'][form] % (ptrue[k] * 1.05, int(rng.integers(20, 60)))}
         kw['priors'] = priors
     L = None
     if corr_mode != 'none':
